@@ -133,6 +133,7 @@ def cases(tier, seed):
                 for k in range(K_):
                     # thorough: the histories of the deepest level are split over K_ cases (index modulo K_)
                     yield {"cls": name, "variant": v, "depth": b["depth"] if lay == "C" else b["layout_depth"], "layout": lay, "slice": [k, K_]}
+    yield {"cls": "TimeSeriesDifference", "variant": "ts-preprocessing", "depth": 0, "layout": "C", "slice": [0, 1]}
     for name in _faulty_variants():
         K_ = 1 if tier == "quick" else 6
         for k in range(K_):
@@ -167,10 +168,54 @@ def _dig(v):
     return repr(v)
 
 
+def _ts_preprocessing(case):
+    """The reciprocal time-series transformers (fit / transform / inverse on (X, y, weights)): same clauses, every degree, dtype and layout."""
+    import numpy
+    from checks import catalog as K
+    from mlinsights.timeseries.preprocessing import TimeSeriesDifference
+    viol, sigs = [], set()
+
+    def bad(kind, cond, msg):
+        sig = "TimeSeriesDifference|%s|%s" % (kind, cond)
+        if sig not in sigs:
+            sigs.add(sig)
+            viol.append({"sig": sig, "msg": msg})
+    cnt = 0
+    for degree in (1, 2, 3):
+        for dt in (numpy.float64, numpy.float32, numpy.int64):
+            y0 = numpy.array([3, 4, 7, 12, 14, 11, 20], dtype=dt)
+            X0 = numpy.arange(14, dtype=dt).reshape(7, 2) + 1
+            w0 = numpy.array([1, 2, 1, 3, 1, 2, 1], dtype=numpy.float64)
+            for (lname, yl), (_, Xl), (_, wl) in zip(K.layouts(y0), [l for l in K.layouts(X0) if l[0] != "transposed window"], K.layouts(w0)):
+                for with_w in (False, True):
+                    desc = "degree=%d dtype=%s layout=%s weights=%s" % (degree, numpy.dtype(dt).name, lname, with_w)
+                    est = TimeSeriesDifference(degree)
+                    before = est.get_params()
+                    ys_, Xs_, ws_ = numpy.array(yl, copy=True), numpy.array(Xl, copy=True), numpy.array(wl, copy=True)
+                    cnt += 1
+                    for opname, op in (("fit", lambda: est.fit(Xl, yl, wl if with_w else None)),
+                                       ("transform", lambda: est.transform(Xl, yl, wl if with_w else None)),
+                                       ("inverse transform", lambda: est.get_fct_inv().transform(*est.transform(Xl, yl, wl if with_w else None)))):
+                        try:
+                            r = op()
+                        except Exception:
+                            r = None
+                        if opname == "fit" and r is not None and r is not est:
+                            bad("fit does not return the estimator", "returns %s" % type(r).__name__, desc)
+                        if not (numpy.array_equal(yl, ys_) and numpy.array_equal(Xl, Xs_) and numpy.array_equal(wl, ws_)):
+                            bad("caller data modified by %s" % opname, opname, desc)
+                            break
+                        if est.get_params() != before:
+                            bad("hyper-parameters changed by %s" % opname, opname, desc)
+    return {"viol": viol, "nontrivial": True, "states": cnt, "transitions": cnt * 3, "outcome": ("ts-preprocessing",)}
+
+
 def run_case(case):
     import warnings
     import numpy
     from checks import catalog as K
+    if case["variant"] == "ts-preprocessing":
+        return _ts_preprocessing(case)
 
     warnings.simplefilter("ignore")
     viol = []
